@@ -10,6 +10,7 @@ import (
 	"os"
 	"sort"
 	"strings"
+	"time"
 
 	"github.com/pingcap/kvproto/pkg/metapb"
 	"github.com/tikv/pd/server/core"
@@ -131,7 +132,7 @@ func load(args map[string]string) error {
 	// ---- regions: all three backends, flush / close / stop without close, a write that fails once
 	for _, n := range sizes {
 		for kind, ids := range idSets(rng, n) {
-			for _, backend := range []string{"mem", "leveldb", "leveldb-stop", "leveldb-flushfail", "limit"} {
+			for _, backend := range []string{"mem", "leveldb", "leveldb-stop", "leveldb-flushfail", "leveldb-cancel", "limit"} {
 				if (backend == "limit" && n < 100) || (n > 1001 && backend != "mem" && backend != "leveldb") {
 					continue
 				}
@@ -140,8 +141,9 @@ func load(args map[string]string) error {
 				var rs *core.RegionStorage
 				mem := kv.NewMemoryKV()
 				lk := &limitKV{Base: mem}
+				rsCtx, rsCancel := context.WithCancel(context.Background())
 				if strings.HasPrefix(backend, "leveldb") {
-					rs, err = core.NewRegionStorage(context.Background(), dir, nil)
+					rs, err = core.NewRegionStorage(rsCtx, dir, nil)
 					if err != nil {
 						return err
 					}
@@ -216,6 +218,19 @@ func load(args map[string]string) error {
 					if st.Close() == nil {
 						flushed = append([]string{}, saved...)
 					}
+				case "leveldb-cancel":
+					// the usual shutdown order: the server's context is cancelled first, then the storage is flushed (and the
+					// process stops) or closed; what a flush or close reports as done must be there afterwards
+					rsCancel()
+					time.Sleep(2 * time.Millisecond)
+					if rng.Intn(2) == 0 {
+						if st.Flush() == nil {
+							flushed = append([]string{}, saved...)
+						}
+						rs.LeveldbKV.Close()
+					} else if st.Close() == nil {
+						flushed = append([]string{}, saved...)
+					}
 				case "leveldb-stop":
 					// the process stops between two batches: no Close; whatever was not flushed is lost
 					rs.LeveldbKV.Close()
@@ -245,6 +260,7 @@ func load(args map[string]string) error {
 				if rs != nil {
 					st2.Close()
 				}
+				rsCancel()
 				os.RemoveAll(dir)
 				beh++
 			}
